@@ -5,7 +5,9 @@ import "verif/e2"
 // The end-to-end half of C20: every transaction delivered by the real Stream in
 // a slice of C01's space is serialised and decoded back (engine E2).
 func init() {
-	ExtraHalves = append(ExtraHalves, e2.RunTwoStreamsFirst, e2.RunMarshal)
+	ExtraHalves = append(ExtraHalves, e2.RunTwoStreamsFirst, e2.RunMarshal, e2.RunPartialImages, e2.RunRename)
+	ExtraReplays["rename"] = e2.ReplayRename
+	ExtraReplays["partial"] = e2.ReplayPartial
 	ExtraReplays["nest"] = e2.ReplayNest
 	ExtraReplays["history"] = e2.ReplayMarshal
 }
